@@ -55,7 +55,9 @@ class State(object):
         return n
 
     def assume(self, c, kind='a'):
-        c = z3.simplify(c)
+        c2 = z3.simplify(c)
+        if z3.is_true(c2) or z3.is_false(c2):
+            c = c2      # otherwise keep the original term: simplify rewrites seq.nth into solver-internal forms
         if not z3.is_true(c) and not any(c.eq(x) for x in self.pc[-40:]):
             self.pc.append(c)
             self.pk.append(kind)
@@ -158,7 +160,10 @@ def cls_in(cterm, clsq):
 
 def shape(st, term, ty):
     """depth-1 shape predicate of a value for a static type (E-PARSE / declared object invariants)"""
-    if isinstance(ty, (Ty.TAny, Ty.TFunc, Ty.TModule)):
+    if isinstance(ty, Ty.TAny):
+        # closed heap: a reference stored anywhere points to an allocated object
+        return Implies(is_ref(term), And(va(term) >= 0, va(term) < st.nxt))
+    if isinstance(ty, (Ty.TFunc, Ty.TModule)):
         return TRUE
     if isinstance(ty, Ty.TNone):
         return is_none(term)
@@ -451,9 +456,17 @@ def merge_states(items):
     for f in fields:
         arrs = [s.field(f) for s in states]
         m.heap[f] = arrs[0] if all(a.eq(arrs[0]) for a in arrs[1:]) else pick(arrs)
-    for attr in ('L', 'DK', 'DV', 'DSZ', 'nxt'):
+    for attr in ('L', 'DK', 'DV', 'DSZ'):
         ts = [getattr(s, attr) for s in states]
         setattr(m, attr, ts[0] if all(t.eq(ts[0]) for t in ts[1:]) else pick(ts))
+    ns = [s.nxt for s in states]
+    if all(t.eq(ns[0]) for t in ns[1:]):
+        m.nxt = ns[0]
+    else:
+        # allocation counter after the join: any value not below the branches' counters (addresses may be skipped)
+        nn = fresh('next', IntS)
+        m.assume(And(*[nn >= t for t in ns]))
+        m.nxt = nn
     # per-path ghost notes
     notes = {}
     base_calls = None
